@@ -27,7 +27,7 @@ ASSUMPTIONS = [
     "connection that the server closes at the same time is the inherent HTTP/1.1 keep-alive race and is not counted",
     "for the threaded worker one more accept may happen in the main-loop iteration that is in progress when a handler thread "
     "reaches the limit; what happens to that connection is judged (and separately keyed)",
-    "the real GeventWorker.run() executes on a shim of the gevent primitives (its acceptor keeps accepting until the 1 s heartbeat loop notices the limit)",
+    "the real GeventWorker.run() executes on a shim of the gevent primitives (its acceptor keeps accepting until the 1 s heartbeat loop notices the limit: recorded as a known finding, not allowed for)",
     "the real EventletWorker.run(), _eventlet_serve and _eventlet_stop execute on a shim of the eventlet primitives they use (simkit/eventlet_shim.py: spawn/GreenThread kill-wait-link, GreenPool, GreenSocket accept, sleep, Timeout, StopServe); real eventlet hub scheduling order is not modelled beyond 'one green thread runs until it blocks'",
 ]
 COMPONENTS = {"real": ["Worker.__init__ (limit + jitter)", "SyncWorker.run/handle_request", "ThreadWorker.run/handle_request/finish_request",
